@@ -250,3 +250,17 @@ def _strings(x):
     elif isinstance(x, (list, tuple)):
         for v in x:
             yield from _strings(v)
+
+
+def replay(witness, res: Result):
+    d = filtgen.Definition()
+    def tup(x):
+        return tuple(tup(i) if isinstance(i, list) and False else i for i in x)
+    d.conditions = [tuple(c) for c in witness["conditions"]]
+    d.actions = [tuple(a) for a in witness["actions"]]
+    d.matchtype = witness["matchtype"]
+    built, viols, extra = evaluate(d)
+    for v in viols:
+        print(v)
+        res.violation({"what": v[1], "how": v[2], "kind": "replay", "cause": "-"},
+                      {"view": v[0], "detail": v[3]})
